@@ -9,6 +9,7 @@ import (
 	"path/filepath"
 	"strings"
 	"time"
+	"unicode/utf16"
 
 	"tags.cncf.io/container-device-interface/pkg/cdi"
 	"tags.cncf.io/container-device-interface/schema"
@@ -113,6 +114,15 @@ func (schemaStream) Generate(rng *rand.Rand, tier string, emit func(Case)) {
 	}
 	for i := 0; i < nValid; i++ {
 		emit(Case{"op": "verdicts", "doc": docToProto(g.spec()), "label": "generated-spec"})
+	}
+	// other spellings of the same JSON document: every '/' escaped as \/, every non-ASCII character as \uXXXX
+	// (surrogate pairs beyond the BMP), indented over several lines - the verdict belongs to the document
+	for i := 0; i < nValid/3; i++ {
+		d := g.spec()
+		d.set("annotations", obj("vendor.com/note", jstr("é/日本/😀/"+fmt.Sprint(i))))
+		for _, style := range []string{"escaped", "indented"} {
+			emit(Case{"op": "verdicts", "doc": docToProto(d), "label": "json-spelling-" + style, "jsonstyle": style})
+		}
 	}
 	for _, kind := range schemaMutations {
 		for i := 0; i < perKind; i++ {
@@ -231,6 +241,29 @@ func (schemaStream) Execute(c Case) {
 	case "verdicts":
 		doc := protoToDoc(c["doc"])
 		jsonText, yamlText := renderJSON(doc), renderYAML(doc)
+		switch c["jsonstyle"] {
+		case "escaped":
+			var b bytes.Buffer
+			for _, r := range string(jsonText) {
+				switch {
+				case r == '/':
+					b.WriteString(`\/`)
+				case r > 0xFFFF:
+					r1, r2 := utf16.EncodeRune(r)
+					fmt.Fprintf(&b, `\u%04x\u%04x`, r1, r2)
+				case r > 127:
+					fmt.Fprintf(&b, `\u%04x`, r)
+				default:
+					b.WriteRune(r)
+				}
+			}
+			jsonText = b.Bytes()
+		case "indented":
+			var b bytes.Buffer
+			if json.Indent(&b, jsonText, "", "\t") == nil {
+				jsonText = append(b.Bytes(), '\n')
+			}
+		}
 		pj, py := filepath.Join(schemaRoot, "doc.json"), filepath.Join(schemaRoot, "doc.yaml")
 		_ = os.WriteFile(pj, jsonText, 0o644)
 		_ = os.WriteFile(py, yamlText, 0o644)
